@@ -230,7 +230,7 @@ func procsCase(c *Case, lean *LeanDriver) Verdict {
 			r.Shuffle(len(data), func(i, j int) { data[i], data[j] = data[j], data[i] })
 			what += "+permuted"
 		}
-		if p%3 == 0 {
+		if p%3 == 0 && !selectsUnrelated(c) {
 			// series no selector of the query can match (other metric names)
 			for k := 0; k < 3; k++ {
 				data = append(data, SeriesData{
@@ -266,6 +266,38 @@ func procsCase(c *Case, lean *LeanDriver) Verdict {
 		}
 	}
 	return v
+}
+
+// selectsUnrelated: does some selector of the query match a series {__name__="unrelated_k", a="x"}
+// (a selector that names its metric by a regex or a negative matcher can)? Then those series are
+// not unrelated to the query.
+func selectsUnrelated(c *Case) bool {
+	expr, err := parser.ParseExpr(c.Query)
+	if err != nil {
+		return true
+	}
+	found := false
+	parser.Inspect(expr, func(n parser.Node, _ []parser.Node) error {
+		vs, ok := n.(*parser.VectorSelector)
+		if !ok {
+			return nil
+		}
+		for k := 0; k < 3; k++ {
+			ls := labels.FromStrings("__name__", fmt.Sprintf("unrelated_%d", k), "a", "x")
+			all := true
+			for _, m := range vs.LabelMatchers {
+				if !m.Matches(ls.Get(m.Name)) {
+					all = false
+					break
+				}
+			}
+			if all {
+				found = true
+			}
+		}
+		return nil
+	})
+	return found
 }
 
 // ---------------------------------------------------------------------------------------------
